@@ -7,7 +7,7 @@ META = {
     "driver_id": "Edit",
     "coq_targets": ["Props/C11.vo", "Extract/Extract_Edit.vo"],
     "technique": 'Coq invariant / refinement proofs over the executable edit-machine model + step-by-step differential correspondence of the extracted model with the implementation + direct oracle on the implementation',
-    "level_text": '(to be completed with the list of theorems proved in Props/C11.v)',
+    "level_text": 'Theorems (closed under the global context): C11_delete_edge, C11_add_edge (forced or not), C11_swap, C11_update_attrs and C11_step_edge_ops: on every state satisfying W_dict and W_forest a refused call returns exactly the state it was given (Leibniz equality on the whole model state: graph, attributes, array, lookups, history, refresh log); for the swap this includes that none of its four nested edits can be refused after an earlier one was applied. PARTIAL: UserAddNode, UserDeleteNode and the paint action are not yet covered by theorems (C07_paint_error_restores proves the array part for strokes); for them the check rests on the differential correspondence (an Err of the model carries the mutated state, compared field by field with the implementation after the raise) and the deep before/after oracle on the implementation (about 30% refused calls, malformed stream included).',
     "level_note": 'Trusted: Coq kernel, extraction (ExtrOcamlBasic only), OCaml driver drv_Edit.ml, Python harness and oracles. Modelled, not verified: networkx DiGraph dict semantics, numpy indexing, skimage regionprops (symbolic: value = function of key, mask, spacing), psygnal. The theorems are about the hand-written model coq/Model/Edit.v; the tie to /repo is the step-by-step differential execution of the extracted model against the implementation on every run.',
     "design_ref": "DESIGN.md section 9 (C11)",
     "assumptions": ['the caller does not pass a lineage id to UserAddNode (outside its documented domain)', 'track_id and lineage_id features stay enabled during editing sessions', 'labels/ids are positive; times are frame indices within the array'],
